@@ -38,6 +38,43 @@ type VerifC04Case struct {
 	Tail     []VerifOp   `json:"tail"` // executed by the parent after reopening
 	Pool     []string    `json:"pool"` // entity ids to look up
 	Mgmt     *VerifMgmt  `json:"mgmt,omitempty"` // dataset-management case: after Ops the child runs this op and dies inside it
+	Public   bool        `json:"public,omitempty"` // the datasets of the case are created with publicNamespaces
+	Long     *VerifLong  `json:"long,omitempty"`   // long-batch case: after Ops the child stores ONE batch of N generated entities
+	Refuse   *VerifRefuse `json:"refuse,omitempty"` // refused-batch case: while the LAST op of Ops stands at a hook point, another writer's batch is refused
+}
+
+// one batch of N small generated entities L0..L(N-1) through Dataset.StoreEntities (Go API), optionally ending in an entity with
+// a nil reference (the whole batch must then be refused)
+type VerifLong struct {
+	Ds  string `json:"ds"`
+	N   int    `json:"n"`
+	Bad bool   `json:"bad,omitempty"`
+}
+
+// while the last write of Ops (on another dataset) stands at hook point At, a batch [Ents..., poison] on Ds is refused
+type VerifRefuse struct {
+	Ds   string     `json:"ds"`
+	At   string     `json:"at"`
+	Ents []VerifEnt `json:"ents"`
+}
+
+// counts of a dataset (long-batch cases: never list 65536+ entities)
+type VerifCounts struct {
+	Changes int    `json:"changes"`
+	Latest  int    `json:"latest"`
+	Dseq    int64  `json:"dseq"`
+	MaxSeq  int64  `json:"maxseq"`
+	First   string `json:"first,omitempty"` // id of the first / last entity of the latest view
+	Last    string `json:"last,omitempty"`
+	Found   bool   `json:"found"` // the LAST generated entity is found through its URI
+}
+
+type VerifLongObs struct {
+	Base   int         `json:"base"`    // change entries before the long batch (from the child's trace)
+	Err    string      `json:"err"`     // what the child's StoreEntities returned ("" = acknowledged, "?" = never returned)
+	After  VerifCounts `json:"after"`   // after reopen
+	Retry  string      `json:"retry"`   // error of storing the (repaired) long batch again
+	Final  VerifCounts `json:"final"`
 }
 
 // dataset-management operation of a management case
@@ -64,6 +101,7 @@ type VerifMgmtObs struct {
 	Reg      VerifRegistry  `json:"reg"`      // after reopen
 	After    *VerifDump     `json:"after"`    // registered datasets of the case, after reopen
 	NewErr   string         `json:"new_err,omitempty"`
+	Recreated bool          `json:"recreated"` // the deleted name was not registered after reopen and has been created again (+ one write)
 	Reg2     VerifRegistry  `json:"reg2"`     // after creating the fresh dataset "zz" and writing one entity into it
 	After2   *VerifDump     `json:"after2"`
 	GcErr    string         `json:"gc_err,omitempty"`
@@ -133,6 +171,8 @@ type VerifC04Obs struct {
 	RefA    *VerifDump   `json:"refA,omitempty"`  // crash-free run of the acknowledged prefix on a fresh store
 	RefB    *VerifDump   `json:"refB,omitempty"`  // ... plus the interrupted write
 	Mgmt    *VerifMgmtObs `json:"mgmt,omitempty"`
+	Long    *VerifLongObs `json:"long,omitempty"`
+	Refused string        `json:"refused,omitempty"` // refused-batch case: the error the refused writer got
 }
 
 // index of the op that was started but not finished according to the trace, else -1
@@ -157,7 +197,7 @@ func verifReference(c VerifC04Case, dir string, ndone int, inprog int) (a *Verif
 	h.open()
 	defer h.close()
 	for _, d := range c.Datasets {
-		if _, err := h.dsm.CreateDataset(d, nil); err != nil {
+		if _, err := h.dsm.CreateDataset(d, verifCreateCfg(c.Public)); err != nil {
 			return nil, nil
 		}
 	}
@@ -196,6 +236,73 @@ func verifStackTop() string {
 	return strings.Join(out, " <- ")
 }
 
+func verifCreateCfg(public bool) *CreateDatasetConfig {
+	if !public {
+		return nil
+	}
+	return &CreateDatasetConfig{PublicNamespaces: []string{"http://v/"}}
+}
+
+// the generated entities of a long batch
+func verifLongEnts(store *Store, l *VerifLong, bad bool) []*Entity {
+	prefix, _ := store.NamespaceManager.AssertPrefixMappingForExpansion("http://v/")
+	ents := make([]*Entity, 0, l.N+1)
+	for i := 0; i < l.N; i++ {
+		e := NewEntity(fmt.Sprintf("%s:L%d", prefix, i), 0)
+		e.Properties[prefix+":p1"] = i
+		ents = append(ents, e)
+	}
+	if bad {
+		p := NewEntity(prefix+":poison", 0)
+		p.References[prefix+":r1"] = nil
+		ents = append(ents, p)
+	}
+	return ents
+}
+
+func verifCounts(h *verifHub, name string, l *VerifLong) (c VerifCounts) {
+	c.Dseq, c.MaxSeq = -1, -1
+	ds := h.dsm.GetDataset(name)
+	if ds == nil {
+		return
+	}
+	key := make([]byte, 6)
+	binary.BigEndian.PutUint16(key, SysDatasetsSequences)
+	binary.BigEndian.PutUint32(key[2:], ds.InternalID)
+	c.Dseq = verifRawU64(h.store, key)
+	_ = h.store.database.View(func(txn *badger.Txn) error {
+		prefix := make([]byte, 6)
+		binary.BigEndian.PutUint16(prefix, DatasetEntityChangeLog)
+		binary.BigEndian.PutUint32(prefix[2:], ds.InternalID)
+		opts := badger.DefaultIteratorOptions
+		opts.PrefetchValues = false
+		it := txn.NewIterator(opts)
+		defer it.Close()
+		for it.Seek(prefix); it.ValidForPrefix(prefix); it.Next() {
+			k := it.Item().Key()
+			if len(k) == 22 {
+				c.Changes++
+				c.MaxSeq = int64(binary.BigEndian.Uint64(k[6:]))
+			}
+		}
+		return nil
+	})
+	_, _ = ds.MapEntities("", 0, func(e *Entity) error {
+		if c.Latest == 0 {
+			c.First = e.ID
+		}
+		c.Last = e.ID
+		c.Latest++
+		return nil
+	})
+	if l != nil && l.N > 0 {
+		if e, err := h.store.GetEntity(fmt.Sprintf("http://v/L%d", l.N-1), []string{name}, true); err == nil && e != nil && len(e.Properties) > 0 {
+			c.Found = true
+		}
+	}
+	return
+}
+
 func verifTraceAppend(f *os.File, t VerifTrace) {
 	b, _ := json.Marshal(t)
 	_, _ = f.Write(append(b, '\n'))
@@ -211,7 +318,7 @@ func VerifC04Child(c VerifC04Case, dir string) {
 	h := &verifHub{dir: dir}
 	h.open()
 	for _, d := range c.Datasets {
-		if _, err := h.dsm.CreateDataset(d, nil); err != nil {
+		if _, err := h.dsm.CreateDataset(d, verifCreateCfg(c.Public)); err != nil {
 			fmt.Fprintln(os.Stderr, "setup:", err)
 			os.Exit(4)
 		}
@@ -251,17 +358,63 @@ func VerifC04Child(c VerifC04Case, dir string) {
 	verifTraceAppend(tf, VerifTrace{Kind: "armed"})
 	times := make(map[int]int64)
 	tokens := make(map[string]int64)
+	curOp := -1
+	if c.Refuse != nil {
+		// at the hook point of the LAST op (a writer on another dataset holding uncommitted new ids) a second writer's batch on
+		// c.Refuse.Ds is refused - run inside the hook, i.e. exactly at that instant of the first writer
+		inside := false
+		fired := false
+		verifhook.SetHandler(func(name, arg string) {
+			if strings.HasPrefix(name, "lock.") || inside {
+				return
+			}
+			verifTraceAppend(tf, VerifTrace{Kind: "hit", Name: name, Arg: arg})
+			if name == c.Refuse.At && !fired && curOp == len(c.Ops)-1 && arg != c.Refuse.Ds && arg != "core.Dataset" {
+				fired = true
+				inside = true
+				e := "no dataset"
+				if ds := h.dsm.GetDataset(c.Refuse.Ds); ds != nil {
+					e = ""
+					ents, err := verifParse(h.store, c.Refuse.Ents)
+					if err != nil {
+						e = "parse: " + err.Error()
+					} else {
+						bad := NewEntity("ns3:poison", 0)
+						bad.References["ns3:r1"] = nil
+						if err := ds.StoreEntities(append(ents, bad)); err != nil {
+							e = err.Error()
+						}
+					}
+				}
+				inside = false
+				verifTraceAppend(tf, VerifTrace{Kind: "refused", Arg: c.Refuse.Ds, Err: e})
+			}
+		})
+	}
 	for i, op := range c.Ops {
+		curOp = i
 		verifTraceAppend(tf, VerifTrace{Kind: "op", Op: i, Lens: verifLens(h, op)})
 		oo := verifDoOp(h, op, i, times, tokens)
 		verifTraceAppend(tf, VerifTrace{Kind: "done", Op: i, Err: oo.Err + oo.Panic})
+	}
+	if c.Long != nil {
+		if ds := h.dsm.GetDataset(c.Long.Ds); ds != nil {
+			n, _ := ds.GetChangesWatermark2()
+			ents := verifLongEnts(h.store, c.Long, c.Long.Bad)
+			verifTraceAppend(tf, VerifTrace{Kind: "long", Op: int(n)})
+			e := ""
+			if err := ds.StoreEntities(ents); err != nil {
+				e = err.Error()
+			}
+			verifTraceAppend(tf, VerifTrace{Kind: "longdone", Err: e})
+		}
 	}
 	if c.Mgmt != nil {
 		verifTraceAppend(tf, VerifTrace{Kind: "mgmt", Arg: c.Mgmt.Op})
 		var err error
 		switch c.Mgmt.Op {
 		case "create":
-			_, err = h.dsm.CreateDataset(c.Mgmt.Ds, nil)
+			_, err = h.dsm.CreateDataset(c.Mgmt.Ds, verifCreateCfg(c.Public))
 		case "delete":
 			err = h.dsm.DeleteDataset(c.Mgmt.Ds)
 		case "rename":
@@ -685,6 +838,21 @@ func VerifC04ParentMgmt(c VerifC04Case, dir string, exit int) (obs VerifC04Obs) 
 	m.Reg = verifRegistry(h)
 	cc.Datasets = verifRegNames(m.Reg)
 	m.After = verifDump(h, cc)
+	// an acknowledged-or-completed delete: the name is free again; a client that creates it again and writes into it must keep that batch
+	if c.Mgmt != nil && c.Mgmt.Op == "delete" && h.dsm.GetDataset(c.Mgmt.Ds) == nil {
+		if ds, err := h.dsm.CreateDataset(c.Mgmt.Ds, verifCreateCfg(c.Public)); err != nil {
+			m.NewErr = "re-create: " + err.Error()
+		} else {
+			ents, err := verifParse(h.store, []VerifEnt{{ID: "w1", Props: map[string]interface{}{"p1": "w"}, Refs: map[string]interface{}{}}})
+			if err == nil {
+				err = ds.StoreEntities(ents)
+			}
+			if err != nil {
+				m.NewErr = "re-create write: " + err.Error()
+			}
+			m.Recreated = true
+		}
+	}
 	// a fresh dataset must get a fresh internal id and hold exactly what is written into it
 	if _, err := h.dsm.CreateDataset("zz", nil); err != nil {
 		m.NewErr = "create: " + err.Error()
@@ -715,7 +883,7 @@ func VerifC04ParentMgmt(c VerifC04Case, dir string, exit int) (obs VerifC04Obs) 
 		rh.open()
 		defer rh.close()
 		for _, d := range c.Datasets {
-			if _, err := rh.dsm.CreateDataset(d, nil); err != nil {
+			if _, err := rh.dsm.CreateDataset(d, verifCreateCfg(c.Public)); err != nil {
 				m.Err += "ref setup: " + err.Error() + ";"
 				return
 			}
@@ -731,5 +899,59 @@ func VerifC04ParentMgmt(c VerifC04Case, dir string, exit int) (obs VerifC04Obs) 
 		rc := c
 		m.Ref = verifDump(rh, rc)
 	}()
+	return
+}
+
+// VerifC04ParentLong: the child stored (or died in, or was refused) one long batch: reopen, count, store the repaired batch, count.
+func VerifC04ParentLong(c VerifC04Case, dir string, exit int) (obs VerifC04Obs) {
+	obs.Outcome = "ok"
+	obs.Exit = exit
+	obs.Trace = verifReadTrace(dir)
+	obs.Tail = []VerifOpObs{}
+	obs.InProg = -1
+	l := &VerifLongObs{Err: "?", Base: -1}
+	obs.Long = l
+	for _, t := range obs.Trace {
+		if t.Kind == "long" {
+			l.Base = t.Op
+		}
+		if t.Kind == "longdone" {
+			l.Err = t.Err
+		}
+	}
+	defer func() {
+		if r := recover(); r != nil {
+			obs.Outcome = "reopen-panic"
+			obs.Detail = fmt.Sprint(r) + " | " + verifStackTop()
+		}
+	}()
+	h := &verifHub{dir: dir}
+	first := func() (msg string) {
+		defer func() {
+			if r := recover(); r != nil {
+				msg = fmt.Sprint(r)
+				if h.errlog != nil {
+					msg += " | hub error log: " + strings.SplitN(h.errlog.String(), "\n", 2)[0]
+				}
+			}
+		}()
+		h.open()
+		return ""
+	}()
+	if first != "" {
+		obs.FirstOpen = first
+		h = &verifHub{dir: dir}
+		h.open()
+	}
+	defer h.close()
+	l.After = verifCounts(h, c.Long.Ds, c.Long)
+	if ds := h.dsm.GetDataset(c.Long.Ds); ds != nil {
+		if err := ds.StoreEntities(verifLongEnts(h.store, c.Long, false)); err != nil {
+			l.Retry = err.Error()
+		}
+	} else {
+		l.Retry = "no dataset"
+	}
+	l.Final = verifCounts(h, c.Long.Ds, c.Long)
 	return
 }
